@@ -23,6 +23,9 @@ Record entry := mkE { e_fp : Z; e_ts : Z; e_val : Z; e_err : ekind; e_json : boo
 Inductive rowk := ROk | RBad (* a cell rows.Scan cannot convert *) | RNoJson (* log line that is not JSON *).
 Record row := mkRow { r_fp : Z; r_ts : Z; r_val : Z; r_kind : rowk }.
 
+(* compact constructor used by generated case files: timestamp = (base + off) s + ns *)
+Definition row_at (base fp off ns val : Z) (k : rowk) : row := mkRow fp ((base + off) * 1000000000 + ns) val k.
+
 (* rows of tempo_traces as OutputQuery sees them *)
 Inductive spank := SpOk | SpDecodeErr | SpPanic (* empty payload, short ids *) | SpUnknownType.
 
@@ -404,7 +407,7 @@ Definition prelude_of (q : request) : prelude :=
 Definition cursor_rows (q : request) : list msg :=
   map MRow (if q_fail_after q <? 0 then q_rows q else firstn (Z.to_nat (q_fail_after q)) (q_rows q)).
 
-Definition run_fuel : nat := 200000.
+Definition run_fuel : nat := 20000.
 
 Definition class_of_run (r : run_result) : oclass :=
   match r with RDone => O2xx | RCrash => OCrash | RStuck => OLeak | RFuel => OUnknown end.
